@@ -1237,8 +1237,20 @@ func (fv *funcVerifier) callWithSpecSig(st *State, call *ast.CallExpr, sig *type
 	for _, e := range sp.Ensures {
 		fv.assume(st, post.evalBool(e))
 	}
+	// "sets" right-hand sides read the CALLER's ghost variables (callee-private ghosts of the same name are hidden)
+	setEnv := post
+	setEnv.vars = map[string]sval{}
+	for k, v := range post.vars {
+		setEnv.vars[k] = v
+	}
+	for _, g := range sp.Ghosts {
+		delete(setEnv.vars, g.Name)
+	}
 	for _, g := range sp.Sets {
-		v := post.eval(g.E)
+		if _, declared := st.ghost[g.Name]; !declared && !fv.declaresGhost(g.Name) {
+			continue // the calling function does not track this ghost variable
+		}
+		v := setEnv.eval(g.E)
 		st.ghost[g.Name] = fv.c.Let("ghost_"+g.Name, v.t)
 		if _, ok := fv.ghostTypes[g.Name]; !ok {
 			fv.ghostTypes[g.Name] = v.typ
@@ -1521,4 +1533,16 @@ func (fv *funcVerifier) simulateLock(st *State, owner smt.Term, ot types.Type) *
 		fv.assume(snap, env.evalInv(self, inv.E))
 	}
 	return snap
+}
+
+func (fv *funcVerifier) declaresGhost(name string) bool {
+	if fv.spec == nil {
+		return false
+	}
+	for _, g := range fv.spec.Ghosts {
+		if g.Name == name {
+			return true
+		}
+	}
+	return false
 }
